@@ -318,6 +318,10 @@ def run(cx, rep):
                    "%s: Not must wrap exactly the negative atoms of a clause (found %s)" % (f.id, seen), f.loc(), sample={"fn": f.name, "not_applied": seen})
     rep.floor("C07.4", "negation wrapper call sites under an `allowed` arm", n_mn, 8)
     rep.floor("C07.4", "clause materialisers (loops over positive / negative atoms)", n_conj, 4)
+    # ---------------------------------------------------------------- C07.7
+    rep.rule("C07.7", "twin materialisers agree (list / set, map / mapping)")
+    import twins
+    twins.twin_rule(cx, rep, "C07.7", r"subtyping/to_schema\.rs", floor=4)
 
 
 ACCESSOR_FAMILY = {"get_mapping_atomic": "mapping", "get_map_atomic": "map", "get_list_atomic": "list", "get_set_atomic": "set"}
